@@ -39,7 +39,7 @@ ASSUMPTIONS = [
     "in the symbolic-time harness TaskiqScheduler.on_ready is a recording stub; a second harness composes the loop with the real on_ready / AsyncKicker at concrete instants",
 ]
 TRUSTED = ["z3 5.1 (UFLIA)", "vt.dtmodel", "event simulator in this file", "vt.sym explorer"]
-REQUIRED_COVERS = ["real_scheduler", "real_one_shot_due", "slow_send", "cron_sent", "cron_not_sent", "one_shot_sent_with_delay", "one_shot_sent_immediately", "one_shot_left_for_later",
+REQUIRED_COVERS = ["two_zones", "real_scheduler", "real_one_shot_due", "slow_send", "cron_sent", "cron_not_sent", "one_shot_sent_with_delay", "one_shot_sent_immediately", "one_shot_left_for_later",
                    "source_failed", "send_failed", "three_polls"]
 
 logging.disable(logging.CRITICAL)
@@ -67,6 +67,8 @@ def cases(tier: str, hname: str = "harness") -> List[Any]:
         for fail in ("none", "source", "send"):
             out.append({"polls": polls, "sched": sched, "fail": fail})
     out.append({"polls": 3, "sched": "cron", "fail": "none", "slow_send": True})
+    # two schedules with the same expression, one evaluated in a named zone and one in UTC
+    out.append({"polls": 2 if tier == "quick" else 3, "sched": "two_zones", "fail": "none"})
     return out
 
 
@@ -223,9 +225,13 @@ def harness(c: sym.Ctx, case: Dict[str, Any]) -> None:
     fail_source_at = c.choose(polls, "fail_source_at") if case["fail"] == "source" else -1
     fail_send_no = c.choose(3, "fail_send_no") if case["fail"] == "send" else -1
     send_no = {"n": 0}
-    has_cron = case["sched"] in ("cron", "both", "two_sources", "cron_td")
+    has_cron = case["sched"] in ("cron", "both", "two_sources", "cron_td", "two_zones")
     has_one = case["sched"] in ("oneshot", "both")
-    cron_off = dtmodel.TD(_us=c.int("cronoff")) if case["sched"] == "cron_td" else None
+    cron_off: Any = dtmodel.TD(_us=c.int("cronoff")) if case["sched"] == "cron_td" else None
+    two_zones = case["sched"] == "two_zones"
+    if two_zones:
+        c.cover("two_zones")
+        cron_off = "Z/One"
 
     class Source:
         def __init__(self, name: str) -> None:
@@ -252,11 +258,11 @@ def harness(c: sym.Ctx, case: Dict[str, Any]) -> None:
                 if has_one and sent_oneshot["n"] == 0:
                     out.append(types.SimpleNamespace(cron=None, cron_offset=None, time=DT(T, 0, True, dtmodel.UTC), task_name="o", schedule_id="one"))
             else:
-                out.append(types.SimpleNamespace(cron="EXPR1", cron_offset=None, time=None, task_name="c1", schedule_id="cron1"))
+                out.append(types.SimpleNamespace(cron="EXPR0" if two_zones else "EXPR1", cron_offset=None, time=None, task_name="c1", schedule_id="cron1"))
             ev.append(("listed", self.name, k, [s.schedule_id for s in out], sim.cur))
             return out
 
-    sources = [Source("s0")] + ([Source("s1")] if case["sched"] == "two_sources" else [])
+    sources = [Source("s0")] + ([Source("s1")] if case["sched"] in ("two_sources", "two_zones") else [])
 
     class Sched:
         def __init__(self) -> None:
@@ -281,10 +287,11 @@ def harness(c: sym.Ctx, case: Dict[str, Any]) -> None:
         return
     for e in ev:
         c.event(*e)
-    check(c, case, ev, run.is_now, start, T, poll_no["n"], sim, cron_off)
+    check(c, case, ev, run.is_now, start, T, poll_no["n"], sim, cron_off, run.pytz)
 
 
-def check(c: sym.Ctx, case: Dict[str, Any], ev: List[Any], is_now: Any, start: Any, T: Any, npolls: int, sim: Any, cron_off: Any = None) -> None:
+def check(c: sym.Ctx, case: Dict[str, Any], ev: List[Any], is_now: Any, start: Any, T: Any, npolls: int, sim: Any, cron_off: Any = None,
+          zones: Any = None) -> None:
     polls = case["polls"]
     if case.get("slow_send"):
         c.cover("slow_send")
@@ -311,7 +318,7 @@ def check(c: sym.Ctx, case: Dict[str, Any], ev: List[Any], is_now: Any, start: A
         c.cover("send_failed")
     # 2. cron: per poll, exactly one send iff the expression matches the minute in which that poll evaluated it
     calls = list(is_now.calls)
-    for src, sid, expr in (("s0", "cron0", "EXPR0"), ("s1", "cron1", "EXPR1")):
+    for src, sid, expr in (("s0", "cron0", "EXPR0"), ("s1", "cron1", "EXPR0" if case["sched"] == "two_zones" else "EXPR1")):
         listed_at = [x for x in ev if x[0] == "listed" and x[1] == src and sid in x[3]]
         for e in listed_at:
             k = e[2]
@@ -321,7 +328,12 @@ def check(c: sym.Ctx, case: Dict[str, Any], ev: List[Any], is_now: Any, start: A
             sends = [x for x in ev if x[0] == "send" and x[1] == sid and x[3] == k]
             # the expectation is stated on the poll alone (the instant the loop evaluates its schedules, shifted by the schedule's
             # offset), not on how or how often the code consults pycron: caching or truncating to the minute is the code's business
-            shift = cron_off.us if (cron_off is not None and sid == "cron0") else 0
+            if cron_off is None or sid != "cron0":
+                shift: Any = 0
+            elif isinstance(cron_off, str):
+                shift = zones.timezone(cron_off).offset_at_utc(q[k])  # the zone's (uninterpreted) utcoffset at that instant
+            else:
+                shift = cron_off.us
             want = is_now.match(expr, (q[k] + shift) // MIN)
             n = len(sends)
             c.check(n <= 1, "cron_sent_at_most_once_per_poll", sid=sid, poll=k, n=n)
@@ -461,8 +473,9 @@ def concrete(c: sym.Ctx, case: Dict[str, Any]) -> None:
 
     import taskiq.cli.scheduler.run as run
 
-    has_cron = case["sched"] in ("cron", "both", "two_sources", "cron_td")
+    has_cron = case["sched"] in ("cron", "both", "two_sources", "cron_td", "two_zones")
     has_one = case["sched"] in ("oneshot", "both")
+    two_zones = case["sched"] == "two_zones"
     state = {"polls": 0, "sent_one": 0, "sends": 0, "lists": 0}
     # cron expression that matches every minute is enough for the replay of one-shot / loop findings; with an offset the
     # expression pins day and month of the shifted clock at the first poll
@@ -472,6 +485,13 @@ def concrete(c: sym.Ctx, case: Dict[str, Any]) -> None:
         cron_td = real_dt.timedelta(microseconds=int(a.get("cronoff", 0)))
         w0 = _sched.EPOCH_UTC + real_dt.timedelta(microseconds=start + (lists[0] if lists else 0)) + cron_td
         cron_expr = f"* * {w0.day} {w0.month} *"
+    zone_name = "Asia/Kolkata"
+    if two_zones:
+        import zoneinfo
+
+        # both schedules carry the expression that pins the hour of the zone's wall clock at the first poll
+        z0 = (_sched.EPOCH_UTC + real_dt.timedelta(microseconds=start + (lists[0] if lists else 0))).astimezone(zoneinfo.ZoneInfo(zone_name))
+        cron_expr = f"* {z0.hour} * * *"
 
     class Source:
         def __init__(self, name: str) -> None:
@@ -495,7 +515,8 @@ def concrete(c: sym.Ctx, case: Dict[str, Any]) -> None:
             out = []
             if self.name == "s0":
                 if has_cron:
-                    out.append(ScheduledTask(task_name="c0", labels={}, args=[], kwargs={}, cron=cron_expr, schedule_id="cron0", cron_offset=cron_td))
+                    out.append(ScheduledTask(task_name="c0", labels={}, args=[], kwargs={}, cron=cron_expr, schedule_id="cron0",
+                                             cron_offset=zone_name if two_zones else cron_td))
                 if has_one and state["sent_one"] == 0:
                     out.append(ScheduledTask(task_name="o", labels={}, args=[], kwargs={}, schedule_id="one",
                                              time=_sched.EPOCH_UTC + real_dt.timedelta(microseconds=T)))
@@ -504,7 +525,7 @@ def concrete(c: sym.Ctx, case: Dict[str, Any]) -> None:
             ev.append(("listed", self.name, k, [s.schedule_id for s in out], now_us()))
             return out
 
-    sources = [Source("s0")] + ([Source("s1")] if case["sched"] == "two_sources" else [])
+    sources = [Source("s0")] + ([Source("s1")] if case["sched"] in ("two_sources", "two_zones") else [])
 
     class Sched:
         def __init__(self) -> None:
@@ -566,6 +587,19 @@ def concrete(c: sym.Ctx, case: Dict[str, Any]) -> None:
         for e in [x for x in ev if x[0] == "listed" and sid in x[3]]:
             n = sum(1 for x in ev if x[0] == "send" and x[1] == sid and x[3] == e[2])
             c.check(n <= 1, "cron_sent_at_most_once_per_poll", sid=sid, poll=e[2], n=n)
+            if two_zones:
+                import zoneinfo
+
+                pk = [x[3] for x in ev if x[0] == "poll" and x[1] == "s0" and x[2] == e[2]][0]
+                u0 = _sched.EPOCH_UTC + real_dt.timedelta(microseconds=pk)
+                u1 = u0 + real_dt.timedelta(seconds=3)
+                zone = zoneinfo.ZoneInfo(zone_name) if sid == "cron0" else real_dt.timezone.utc
+                if u0.astimezone(zone).hour != u1.astimezone(zone).hour:
+                    continue  # the poll straddles an hour boundary of that clock
+                due = u0.astimezone(zone).hour == z0.hour
+                c.check(n == (1 if due else 0), "cron_sent_only_in_matching_minute" if not due else "cron_sent_in_every_matching_minute",
+                        sid=sid, poll=e[2], expr=cron_expr, clock=str(u0.astimezone(zone)), sends=n)
+                continue
             if cron_td is not None and sid == "cron0":
                 pk = [x[3] for x in ev if x[0] == "poll" and x[1] == "s0" and x[2] == e[2]][0]
                 wk = _sched.EPOCH_UTC + real_dt.timedelta(microseconds=pk) + cron_td
